@@ -1,0 +1,215 @@
+//go:build verif
+
+package scipipe
+
+// Contracts for govc (contract-based deductive verification, see /verif/DESIGN.md).
+// This file is compiled only with -tags verif and contains comments only.
+
+// ---------------------------------------------------------------------------
+// Library functions (assumed contracts)
+// ---------------------------------------------------------------------------
+
+//@ ghost func replaceAll(s string, a string, b string) string interp `(str.replace_all s a b)`
+//@ axiom RA.absent: forall s string, a string, b string :: !contains(s, a) ==> replaceAll(s, a, b) == s
+//@ axiom RA.parent.no-old: forall s string :: !contains(replaceAll(s, "../", "__parent__"), "../")
+//@ axiom RA.parent.prefix: forall s string :: hasPrefix(replaceAll(s, "../", "__parent__"), "/") <==> hasPrefix(s, "/")
+//@ axiom RA.parent.nonempty: forall s string :: len(s) > 0 ==> len(replaceAll(s, "../", "__parent__")) > 0
+//@ axiom RA.parent.valid: forall s string :: validPath(s) ==> validPath(replaceAll(s, "../", "__parent__"))
+
+//@ extern strings.ReplaceAll(s, old, new) (res)
+//@   ensures def: res == replaceAll(s, old, new)
+
+//@ define validPath(p string) bool = fullMatch(p, "[0-9A-Za-z/._-]+")
+
+// ---------------------------------------------------------------------------
+// task.go: path helpers
+// ---------------------------------------------------------------------------
+
+//@ func prependParentDirPath(path) (res)
+//@   props C13
+//@   requires nonempty: len(path) > 0
+//@   ensures abs: hasPrefix(path, "/") ==> res == path
+//@   ensures rel: !hasPrefix(path, "/") ==> res == "../" + path
+
+//@ func replaceParentDirsWithPlaceholder(pathSegment) (res)
+//@   props C01 C13
+//@   ensures def: res == replaceAll(pathSegment, "../", "__parent__")
+
+//@ func replacePlaceholdersWithParentDirs(pathSegment) (res)
+//@   props C13
+//@   ensures def: res == replaceAll(pathSegment, "__parent__", "../")
+
+// ---------------------------------------------------------------------------
+// ip.go
+// ---------------------------------------------------------------------------
+
+//@ func (*FileIP).Path(ip) (res)
+//@   props C01 C13
+//@   ensures def: res == ip.path
+
+//@ func (*FileIP).FifoPath(ip) (res)
+//@   props C13 C17
+//@   ensures def: res == ip.path + ".fifo"
+
+//@ func (*FileIP).TempPath(ip) (res)
+//@   props C01 C13
+//@   requires valid: validPath(ip.path)
+//@   ensures def: res == tempPathOf(ip.path)
+//@   ensures confined[C01]: !hasPrefix(res, "/") && !contains(res, "../")
+//@   ensures identity[C13]: !hasPrefix(ip.path, "/") && !contains(ip.path, "../") ==> res == ip.path
+
+//@ define tempPathOf(p string) string = ite(hasPrefix(p, "/"), "__fsroot__" + replaceAll(p, "../", "__parent__"), replaceAll(p, "../", "__parent__"))
+
+// ---------------------------------------------------------------------------
+// Ghost state: filesystem effects issued by this program (growing sets), observations, clock
+// ---------------------------------------------------------------------------
+
+//@ ghost var effCreated set[string]
+//@ ghost var effMkdir set[string]
+//@ ghost var effRenamed arr[string]set[string]
+//@ ghost var effRemoved set[string]
+//@ ghost var effExec set[string]
+//@ ghost var effExecOK set[string]
+//@ ghost var effFifo set[string]
+//@ ghost var fsEpoch int
+//@ ghost var clock int
+//@ ghost var customDone set[ref]
+//@ ghost var locked set[ref]
+
+//@ ghost func statOK(epoch int, p string) bool
+//@ ghost func statNotExist(epoch int, p string) bool
+//@ ghost func isNotExistErr(e ref) bool
+//@ axiom stat.excl: forall e int, p string :: !(statOK(e, p) && statNotExist(e, p))
+//@ axiom notexist.nil: !isNotExistErr(nil)
+
+//@ ghost func tmpDirOf(t *Task) string
+//@ ghost func dirOf(p string) string
+//@ ghost func pathJoin2(a string, b string) string
+//@ ghost func cmdArg(c ref, i int) string
+
+//@ extern os.Stat(name) (fi, err)
+//@   ensures ok: (err == nil) <==> statOK(fsEpoch, name)
+//@   ensures ne: isNotExistErr(err) <==> statNotExist(fsEpoch, name)
+//@ extern os.IsNotExist(err) (res)
+//@   ensures def: res == isNotExistErr(err)
+//@ extern os.MkdirAll(path, perm) (err)
+//@   modifies effMkdir, fsEpoch
+//@   ensures eff: effMkdir == setAdd(old(effMkdir), path)
+//@ extern os.Rename(oldpath, newpath) (err)
+//@   modifies effRenamed, fsEpoch
+//@   ensures ok: err == nil ==> effRenamed == update(old(effRenamed), oldpath, setAdd(old(effRenamed)[oldpath], newpath))
+//@   ensures fail: err != nil ==> effRenamed == old(effRenamed)
+//@ extern os.RemoveAll(path) (err)
+//@   modifies effRemoved, fsEpoch
+//@   ensures eff: effRemoved == setAdd(old(effRemoved), path)
+//@ extern os.Remove(name) (err)
+//@   modifies effRemoved, fsEpoch
+//@   ensures eff: effRemoved == setAdd(old(effRemoved), name)
+//@ extern os/exec.Command(name, arg) (res)
+//@   ensures args: forall i int :: 0 <= i && i < len(arg) ==> cmdArg(res, i) == arg[i]
+//@   ensures nonnil: res != nil
+//@ extern (*os/exec.Cmd).CombinedOutput(c) (out, err)
+//@   modifies effExec, effExecOK, fsEpoch
+//@   ensures started: effExec == setAdd(old(effExec), cmdArg(c, 1))
+//@   ensures ok: err == nil ==> effExecOK == setAdd(old(effExecOK), cmdArg(c, 1))
+//@   ensures failed: err != nil ==> effExecOK == old(effExecOK)
+//@ extern path/filepath.Dir(path) (res)
+//@   ensures def: res == dirOf(path)
+//@ extern path/filepath.Join(elem) (res)
+//@   ensures two: len(elem) == 2 ==> res == pathJoin2(elem[0], elem[1])
+//@ extern time.Now() (res)
+//@   modifies clock
+//@   ensures mono: res >= old(clock) && clock == res
+//@ extern (time.Time).Sub(t, u) (res)
+//@   ensures def: res == t - u
+//@ extern fmt.Sprintf(format, a) (res)
+//@ extern (*log.Logger).Println(l, v)
+//@ extern (*log.Logger).Printf(l, format, v)
+//@ extern errors.New(text) (res)
+//@   ensures nonnil: res != nil
+//@ iface error.Error() (res)
+//@ extern os.Exit(code)
+//@   requires nonzero: code != 0
+//@   noreturn
+//@ extern (*sync.Mutex).Lock(m)
+//@   requires notheld: !locked[m]
+//@   modifies locked
+//@   ensures held: locked == setAdd(old(locked), m)
+//@ extern (*sync.Mutex).Unlock(m)
+//@   requires held: locked[m]
+//@   modifies locked
+//@   ensures released: locked == setDel(old(locked), m)
+
+// ---------------------------------------------------------------------------
+// common.go: failing is never silent (C09)
+// ---------------------------------------------------------------------------
+
+//@ func Fail(vs)
+//@   props C09
+//@   noreturn
+//@ func Failf(msg, vs)
+//@   props C09
+//@   noreturn
+//@ func Check(err)
+//@   props C09
+//@   ensures returns-only-if-nil: err == nil
+//@ func CheckWithMsg(err, errMsg)
+//@   props C09
+//@   ensures returns-only-if-nil: err == nil
+//@ func errWrap(err, msg) (res)
+//@   props C09
+//@   ensures nonnil: res != nil
+//@ func (*Task).Failf(t, msg, parts)
+//@   props C09
+//@   noreturn
+//@ func (*Task).Fail(t, msg)
+//@   props C09
+//@   noreturn
+//@ func (*BaseProcess).Failf(p, msg, parts)
+//@   props C09
+//@   noreturn
+//@ func (*BaseProcess).Fail(p, msg)
+//@   props C09
+//@   noreturn
+//@ func (*FileIP).Failf(ip, msg, parts)
+//@   props C09
+//@   noreturn
+//@ func (*FileIP).Fail(ip, msg)
+//@   props C09
+//@   noreturn
+//@ func (*BaseProcess).Name(p) (res)
+//@   props C09
+//@   ensures def: res == p.name
+//@ func (*Task).Auditf(t, msg, parts)
+//@   props C01
+//@ func (*Task).Audit(t, msg)
+//@   props C01
+
+// ---------------------------------------------------------------------------
+// task.go: Execute and its helpers
+// ---------------------------------------------------------------------------
+
+//@ define nonStreamOut(t *Task, k string) bool = k in t.OutIPs && !t.OutIPs[k].doStream
+//@ define isFinal(t *Task, p string) bool = exists k string :: nonStreamOut(t, k) && t.OutIPs[k].path == p
+//@ define tmpOut(t *Task, k string) string = tmpDirOf(t) + "/" + tempPathOf(t.OutIPs[k].path)
+//@ define cmdLine(t *Task, cmd string) string = "cd " + tmpDirOf(t) + " && " + cmd + " && cd .."
+
+//@ func (*Task).TempDir(t) (res)
+//@   props C14
+//@   assumes stable: res == tmpDirOf(t)
+
+//@ func (*Task).tempDirsExist(t) (res)
+//@   props C03
+//@   ensures def: res <==> !statNotExist(fsEpoch, tmpDirOf(t))
+
+//@ func (*Task).anyOutputsExist(t) (anyFileExists)
+//@   props C02 C03
+//@   ensures def: anyFileExists <==> exists k string :: nonStreamOut(t, k) && statOK(fsEpoch, t.OutIPs[k].path)
+//@   loop 0 invariant vis: forall k string :: $visited[k] ==> k in t.OutIPs
+//@   loop 0 invariant acc: anyFileExists <==> exists k string :: $visited[k] && !t.OutIPs[k].doStream && statOK(fsEpoch, t.OutIPs[k].path)
+
+//@ func (*Task).executeCommand(t, cmd)
+//@   props C01 C09 C13
+//@   modifies effExec, effExecOK, fsEpoch
+//@   ensures cwd: effExec == setAdd(old(effExec), cmdLine(t, cmd))
+//@   ensures returns-only-on-success: effExecOK[cmdLine(t, cmd)]
